@@ -79,7 +79,21 @@ func c13Judge(c *Ctx, cs *Case) {
 	if cs.Mode == "chunks" {
 		whole := RunCLI(CLIOpts{Bin: c.Bin, Src: cs.Src, Stdin: cs.Stdin, Dir: c.Scratch})
 		c.Count("cli_runs", 1)
-		for i, chunks := range [][]string{strings.SplitAfter(cs.Stdin, "\n"), {cs.Stdin[:3], cs.Stdin[3:9], cs.Stdin[9:]}, {cs.Stdin[:len(cs.Stdin)/2], cs.Stdin[len(cs.Stdin)/2:]}, {cs.Stdin}} {
+		schemes := [][]string{strings.SplitAfter(cs.Stdin, "\n"), {cs.Stdin[:3], cs.Stdin[3:9], cs.Stdin[9:]}, {cs.Stdin[:len(cs.Stdin)/2], cs.Stdin[len(cs.Stdin)/2:]}, {cs.Stdin}}
+		// cuts at every byte offset of the first characters (inside multi-byte characters too) and one byte at a time for a stretch
+		for _, cut := range []int{1, 2, 4, 5, 7, 8, 10, 11, 14} {
+			if cut < len(cs.Stdin) {
+				schemes = append(schemes, []string{cs.Stdin[:cut], cs.Stdin[cut:]})
+			}
+		}
+		if len(cs.Stdin) > 16 {
+			one := []string{}
+			for i := 0; i < 16; i++ {
+				one = append(one, cs.Stdin[i:i+1])
+			}
+			schemes = append(schemes, append(one, cs.Stdin[16:]))
+		}
+		for i, chunks := range schemes {
 			o := RunCLI(CLIOpts{Bin: c.Bin, Src: cs.Src, Chunks: chunks, ChunkGap: 150 * time.Millisecond, Dir: c.Scratch})
 			c.Count("cli_runs", 1)
 			if o.TimedOut || whole.TimedOut {
@@ -379,6 +393,9 @@ func c13Run(c *Ctx) {
 		if c.Mine() {
 			c13Judge(c, &Case{Gen: "stdin-chunking", Mode: "chunks", Src: prog, Stdin: "alice\ndhaka\n1999\nlast\n", X: nt})
 		}
+		if c.Mine() {
+			c13Judge(c, &Case{Gen: "stdin-chunking", Mode: "chunks", Src: prog, Stdin: "\u0995\u09b0\u09bf\u09ae\n\u09a2\u09be\u0995\u09be \u00e9\n\u09e7\u09ef\u09ef\u09ef\n\u09b6\u09c7\u09b7\n", X: nt})
+		}
 	}
 	// 2d. texts with several lexical / syntax errors on different lines: which diagnostic comes first
 	{
@@ -404,6 +421,15 @@ func c13Run(c *Ctx) {
 				cs.Mode = "cli"
 			}
 			c13Judge(c, cs)
+		}
+	}
+	// 2b'. several different built-in names declared in one text: the first diagnostic is the same every time
+	for _, src := range []string{
+		Lines(Print("1"), Var(B["len"], "1"), Print("2"), Var(B["round"], "2"), Fun(B["abs"], "", ""), Var(B["max"], "3"), Var(B["keys"], "4")),
+		Lines(Fun(B["sqrt"], "a", " "+Ret("a")+" "), Var(B["min"], "0"), K["var"]+" ok = 1, "+B["pow"]+" = 2, "+B["sin"]+" = 3;", Fun("f", "", " "+Var(B["cos"], "1")+" "+Var(B["tan"], "2")+" ")),
+	} {
+		if c.Mine() {
+			c13Judge(c, &Case{Gen: "several-static-errors", Mode: "cli", Src: src, X: map[string]string{"nontrivial": "1", "process_reps": "12"}})
 		}
 	}
 	// 2b''. a syntax error and a lexical error a given number of tokens apart, in either order: which diagnostic comes first is
